@@ -11,8 +11,8 @@
 #include "lz4hc.c"
 #include "gen.h"
 
-enum { E_DEFAULT = 0, E_FAST, E_FAST_EXTSTATE, E_FAST_FASTRESET, E_HC, E_HC_EXTSTATE, E_HC_FASTRESET, E_HC_FAVOR, E_DESTSIZE, E_DESTSIZE_EXT, E_HC_DESTSIZE, E_NB };
-static const char* const e_names[E_NB] = {"default","fast","fast_extState","fast_extState_fastReset","HC","HC_extStateHC","HC_extStateHC_fastReset","HC_favorDecSpeed","destSize","destSize_extState","HC_destSize"};
+enum { E_DEFAULT = 0, E_FAST, E_FAST_EXTSTATE, E_FAST_FASTRESET, E_HC, E_HC_EXTSTATE, E_HC_FASTRESET, E_HC_FAVOR, E_DESTSIZE, E_DESTSIZE_EXT, E_HC_DESTSIZE, E_FAST_FASTRESET_WARM, E_HC_FASTRESET_WARM, E_NB };
+static const char* const e_names[E_NB] = {"default","fast","fast_extState","fast_extState_fastReset","HC","HC_extStateHC","HC_extStateHC_fastReset","HC_favorDecSpeed","destSize","destSize_extState","HC_destSize","fast_extState_fastReset_reused","HC_extStateHC_fastReset_reused"};
 
 enum { OP_BLOCK = 1 };
 
@@ -30,6 +30,20 @@ static int call_entry(int entry, int param, const char* src, int n, char* dst, i
     case E_FAST: r = LZ4_compress_fast(src, dst, n, cap, param); break;
     case E_FAST_EXTSTATE: { void* st = malloc(LZ4_sizeofState()); g_rs ^= (u64)garbageSeed * 77; fill_garbage(st, LZ4_sizeofState()); r = LZ4_compress_fast_extState(st, src, dst, n, cap, param); free(st); break; }
     case E_FAST_FASTRESET: { LZ4_stream_t* st = LZ4_createStream(); r = LZ4_compress_fast_extState_fastReset(st, src, dst, n, cap, param); LZ4_freeStream(st); break; }
+    case E_FAST_FASTRESET_WARM: {   /* the documented use of _fastReset: a state that already served other compressions (small ones keep the byU16 table, a large one switches type) */
+        LZ4_stream_t* st = LZ4_createStream(); int w, nw = 1 + (int)rndn(3);
+        for (w = 0; w < nw; w++) { int wn = rndp(75) ? (int)rndn(3500) : (int)rndn(90000); char* ws = (char*)malloc((size_t)wn + 1); int wb = LZ4_compressBound(wn); char* wd = (char*)malloc((size_t)wb + 1); int k2;
+            for (k2 = 0; k2 < wn; k2++) ws[k2] = rndp(50) ? (char)rnd() : (char)('a' + rndn(4));
+            if (rndp(20) && n > 0) memcpy(ws, src, (size_t)(wn < n ? wn : n));      /* similar content: stale entries that look like matches */
+            (void)LZ4_compress_fast_extState_fastReset(st, ws, wd, wn, rndp(70) ? wb : (int)rndn((u32)wb + 1), 1 + (int)rndn(3)); free(ws); free(wd); }
+        r = LZ4_compress_fast_extState_fastReset(st, src, dst, n, cap, param); LZ4_freeStream(st); break; }
+    case E_HC_FASTRESET_WARM: {
+        LZ4_streamHC_t* st = LZ4_createStreamHC(); int w, nw = 1 + (int)rndn(3);
+        for (w = 0; w < nw; w++) { int wn = rndp(75) ? (int)rndn(3500) : (int)rndn(90000); char* ws = (char*)malloc((size_t)wn + 1); int wb = LZ4_compressBound(wn); char* wd = (char*)malloc((size_t)wb + 1); int k2;
+            for (k2 = 0; k2 < wn; k2++) ws[k2] = rndp(50) ? (char)rnd() : (char)('a' + rndn(4));
+            if (rndp(20) && n > 0) memcpy(ws, src, (size_t)(wn < n ? wn : n));
+            (void)LZ4_compress_HC_extStateHC_fastReset(st, ws, wd, wn, rndp(70) ? wb : (int)rndn((u32)wb + 1), (int)rndn(13)); free(ws); free(wd); }
+        r = LZ4_compress_HC_extStateHC_fastReset(st, src, dst, n, cap, param); LZ4_freeStreamHC(st); break; }
     case E_HC: r = LZ4_compress_HC(src, dst, n, cap, param); break;
     case E_HC_EXTSTATE: { void* st = malloc(LZ4_sizeofStateHC()); g_rs ^= (u64)garbageSeed * 77; fill_garbage(st, LZ4_sizeofStateHC()); r = LZ4_compress_HC_extStateHC(st, src, dst, n, cap, param); free(st); break; }
     case E_HC_FASTRESET: { LZ4_streamHC_t* st = LZ4_createStreamHC(); r = LZ4_compress_HC_extStateHC_fastReset(st, src, dst, n, cap, param); LZ4_freeStreamHC(st); break; }
@@ -88,11 +102,19 @@ static void do_case(const u8* data, size_t n, int entry, int param, int cap, int
     free(src); free(dst);
 }
 
+/* a one-shot entry point: the 8 plain ones, the two "reused state" variants, optionally the destSize ones */
+static int pick_entry(int withDestSize)
+{
+    static const int plain[] = {E_DEFAULT, E_FAST, E_FAST_EXTSTATE, E_FAST_FASTRESET, E_HC, E_HC_EXTSTATE, E_HC_FASTRESET, E_HC_FAVOR, E_FAST_FASTRESET_WARM, E_HC_FASTRESET_WARM, E_FAST_FASTRESET_WARM};
+    if (withDestSize && rndp(25)) return E_DESTSIZE + (int)rndn(3);
+    return plain[rndn(11)];
+}
+
 static int pick_param(int entry)
 {
     switch (entry) {
-    case E_FAST: case E_FAST_EXTSTATE: case E_FAST_FASTRESET: case E_DESTSIZE_EXT: { static const int a[] = {1,1,1,2,3,7,8,17,64,1000,65537,0,-5,2147483647}; return a[rndn(14)]; }
-    case E_HC: case E_HC_EXTSTATE: case E_HC_FASTRESET: case E_HC_DESTSIZE: { static const int l[] = {1,2,3,4,5,6,7,8,9,10,11,12,0,-1,13,99}; return l[rndn(16)]; }
+    case E_FAST: case E_FAST_EXTSTATE: case E_FAST_FASTRESET: case E_FAST_FASTRESET_WARM: case E_DESTSIZE_EXT: { static const int a[] = {1,1,1,2,3,7,8,17,64,1000,65537,0,-5,2147483647}; return a[rndn(14)]; }
+    case E_HC: case E_HC_EXTSTATE: case E_HC_FASTRESET: case E_HC_FASTRESET_WARM: case E_HC_DESTSIZE: { static const int l[] = {1,2,3,4,5,6,7,8,9,10,11,12,0,-1,13,99}; return l[rndn(16)]; }
     case E_HC_FAVOR: return 10 + (int)rndn(3);
     default: return 1;
     }
@@ -156,7 +178,7 @@ int main(int argc, char** argv)
             bound = LZ4_compressBound((int)n);
             nrep = n > 100000 ? 1 : 3;
             for (e = 0; e < nrep; e++) {
-                entry = (int)rndn(!strcmp(mode, "c06") ? E_NB : E_DESTSIZE); param = pick_param(entry);
+                entry = pick_entry(!strcmp(mode, "c06")); param = pick_param(entry);
                 if (n > 300000 && entry >= E_HC && param > 9 && !thorough) param = 9;   /* keep quick quick */
                 cap = is_destsize(entry) ? (rndp(50) ? bound : 1 + (int)rndn((u32)bound + 1)) : (rndp(70) ? bound : rndp(50) ? bound + 1 + (int)rndn(100) : (int)rndn((u32)bound + 1));
                 do_case(data, n, entry, param, cap, kind, 1);
@@ -171,13 +193,13 @@ int main(int argc, char** argv)
             if (n > 700) n = 700;
             gen_data(data, n, kind);
             bound = LZ4_compressBound((int)n);
-            entry = (int)rndn(E_DESTSIZE); param = pick_param(entry);
+            entry = pick_entry(0); param = pick_param(entry);
             for (cap = 0; cap <= bound + 1; cap++) do_case(data, n, entry, param, cap, kind, 1);
         }
         for (i = 0; i < (thorough ? 3000 : 300); i++) {
             int kind = rndp(50) ? D_RANDOM : (int)rndn(D_KINDS); size_t n = gen_size(maxn); int bound, entry, param, cap;
             gen_data(data, n, kind); bound = LZ4_compressBound((int)n);
-            entry = (int)rndn(E_DESTSIZE); param = pick_param(entry);
+            entry = pick_entry(0); param = pick_param(entry);
             if (n > 300000 && entry >= E_HC && param > 9 && !thorough) param = 9;
             switch (rndn(6)) { case 0: cap = bound; break; case 1: cap = bound - 1; break; case 2: cap = bound + 1; break; case 3: cap = (int)n; break; case 4: cap = (int)n + (int)n / 255 + (int)rndn(17); break; default: cap = (int)rndn((u32)bound + 2); }
             if (cap < 0) cap = 0;
